@@ -22,7 +22,7 @@ class Attacker:
         world.net.taps.append(self.tap)
         world.attacker = self
         world.injections = {}
-        for name in ("replay", "forge", "garbage", "mutate"):
+        for name in ("replay", "forge", "garbage", "mutate", "poison"):
             world.custom_ops[name] = getattr(self, "op_" + name)
 
     def tap(self, wid, t, src, dst, data, fate):
@@ -63,6 +63,21 @@ class Attacker:
         for r in range(op.get("times", 1)):
             self.inject(frm, to, data, "replay", delay=op.get("delay", 0.0) + r * 0.001,
                         meta={"gen": "replay", "wid": wid, "age_dgrams": len(lg) - 1 - idx, "orig_t": t})
+
+    def op_poison(self, w, _node, op):
+        """The newest genuine datagram of a link with its clear-text sequence number rewritten (the tag no longer fits):
+        an endpoint that trusts the header before authenticating it moves its receive window."""
+        lg = self.log.get(op["link"])
+        if not lg:
+            return
+        wid, t, data = lg[-1]
+        if len(data) < R.HDR:
+            return
+        h = R.dec_header(data)
+        b = bytearray(data)
+        b[8:10] = struct.pack(">H", R.ring_add(h["seq"], op.get("off", 32767)))
+        frm, to = op["link"].split(">")
+        self.inject(frm, to, bytes(b), "poison-seq", meta={"gen": "poison-seq", "off": op.get("off", 32767), "wid": wid})
 
     def op_forge(self, w, _node, op):
         """CRC-valid plaintext datagram of any type towards `to`, claiming `frm`."""
